@@ -48,6 +48,8 @@ type Case struct {
 	DigitPath bool
 	// HyphenPath: the last element of the struct import path is not an identifier ("go-<pkg>_x") and differs from the package name.
 	HyphenPath bool
+	// PrefixTarget: the target package name is a proper prefix of the struct package name (k5s -> k5).
+	PrefixTarget bool
 	// TypesNamedPkg: the struct package is called `types` (like the framework package the generated file
 	// imports as well) and is addressed through the alias + import_path_overrides form of the README.
 	TypesNamedPkg bool
@@ -121,6 +123,11 @@ func (w *Workspace) Prepare(c *Case) {
 			c.Cfg.TargetPackageName = tp
 		}
 		c.TFImport = base + "/" + tp
+		if c.PrefixTarget && len(c.StructPkg) > 2 {
+			tp = c.StructPkg[:len(c.StructPkg)-1]
+			c.Cfg.TargetPackageName = tp
+			c.TFImport = base + "/tf/" + tp
+		}
 		if c.SameName {
 			tp = c.StructPkg
 			c.Cfg.TargetPackageName = tp
